@@ -286,8 +286,10 @@ class World:
         return out
 
     def registries_fp(self):
+        # registries and the process-wide numpy floating-point error state (what a fresh process-state has)
         return [sorted((k, id(v)) for k, v in TRANSFORMS.items()),
-                sorted((k, id(v)) for k, v in ENCODINGS.items())]
+                sorted((k, id(v)) for k, v in ENCODINGS.items()),
+                sorted(np.geterr().items())]
 
     def fail(self, oracle, kind, key, detail, extra=None):
         v = Violation(oracle, kind, key, detail, extra)
@@ -1082,7 +1084,8 @@ class World:
                       f"a caller namespace changed at step {self.step} ({op['op']})", extra)
         if self.registries_fp() != self.reg_fp:
             self.fail("S", "registry-changed", "registry",
-                      f"TRANSFORMS/ENCODINGS changed at step {self.step} ({op['op']})", extra)
+                      f"TRANSFORMS/ENCODINGS or the process-wide numpy error state (np.geterr() = {np.geterr()}) "
+                      f"changed at step {self.step} ({op['op']})", extra)
 
 
 def run_scenario(scenario, oracles=None, ref=None, suppress=None, dump=False):
